@@ -268,7 +268,9 @@ func (s *Sim) canonClaimGroup(traceFrom, pendingFrom int) {
 		rvs[i] = e.Obj.GetResourceVersion()
 	}
 	sort.Slice(tail, func(i, j int) bool { return tail[i].Obj.GetName() < tail[j].Obj.GetName() })
-	sort.Slice(rvs, func(i, j int) bool { return len(rvs[i]) < len(rvs[j]) || (len(rvs[i]) == len(rvs[j]) && rvs[i] < rvs[j]) })
+	sort.Slice(rvs, func(i, j int) bool {
+		return len(rvs[i]) < len(rvs[j]) || (len(rvs[i]) == len(rvs[j]) && rvs[i] < rvs[j])
+	})
 	for i := range tail {
 		tail[i].Obj.SetResourceVersion(rvs[i])
 		ky := key(tail[i].Obj.GetNamespace(), tail[i].Obj.GetName())
